@@ -15,7 +15,7 @@ class IRProp(Prop):
     extract = ("ir", "ExtractIR.v", "ir_main.ml", "Ir_model")
     allowed_axioms = set()
     genopts = {}
-    sizes = {"quick": 600, "thorough": 4000, "boost": 1500}
+    sizes = {"quick": 1500, "thorough": 10000, "boost": 3000}
     tag = "ir"
     base_trusted = [
         "Coq 8.16.1 kernel",
